@@ -226,6 +226,24 @@ func (x *Exec) dumpLoad(op GenOp, lo *LogOp) {
 	for i := 0; i < op.N; i++ {
 		lo.Ret2 = append(lo.Ret2, w2.NewEntity())
 	}
+	// the loaded world lives on (removals, recycling); the dump must stay a snapshot: load it once more
+	for _, h := range lo.Ret2 {
+		w2.RemoveEntity(h)
+	}
+	if len(lo.Alive2) > 0 {
+		w2.RemoveEntity(lo.Alive2[0])
+	}
+	w2.NewEntity()
+	w3 := ecs.NewWorld(x.Cfg.Caps...)
+	w3.Unsafe().LoadEntities(&d)
+	for _, h := range x.issued {
+		if w3.Alive(h) {
+			lo.Alive3 = append(lo.Alive3, h)
+		}
+	}
+	for i := 0; i < op.N; i++ {
+		lo.Ret3 = append(lo.Ret3, w3.NewEntity())
+	}
 	for i := 0; i < op.N; i++ {
 		lo.Ret = append(lo.Ret, x.w.NewEntity())
 	}
@@ -234,12 +252,16 @@ func (x *Exec) dumpLoad(op GenOp, lo *LogOp) {
 	if len(hs) > 24 {
 		hs = hs[len(hs)-24:]
 	}
-	for _, h := range hs {
+	// encode all handles first, decode afterwards: encodings must not share storage
+	jbs, bbs := make([][]byte, len(hs)), make([][]byte, len(hs))
+	for i, h := range hs {
+		jbs[i], _ = json.Marshal(h)
+		bbs[i], _ = h.MarshalBinary()
+	}
+	for i, h := range hs {
 		var j, b ecs.Entity
-		jb, _ := json.Marshal(h)
-		_ = json.Unmarshal(jb, &j)
-		bb, _ := h.MarshalBinary()
-		_ = b.UnmarshalBinary(bb)
+		_ = json.Unmarshal(jbs[i], &j)
+		_ = b.UnmarshalBinary(bbs[i])
 		lo.Codec = append(lo.Codec, [3]ecs.Entity{h, j, b})
 	}
 	for n := 0; n <= 16; n++ {
@@ -310,6 +332,8 @@ type LogOp struct {
 	Caps   []TabCap              `json:"caps"`
 	Alive2 []ecs.Entity          `json:"alive2"`
 	Ret2   []ecs.Entity          `json:"ret2"`
+	Alive3 []ecs.Entity          `json:"alive3"`
+	Ret3   []ecs.Entity          `json:"ret3"`
 	Codec  [][3]ecs.Entity       `json:"codec"`
 	BinOK  []int                 `json:"binok"`
 	Iters  int                   `json:"iters"`
@@ -956,7 +980,7 @@ func (x *Exec) run(op GenOp, i int) LogOp {
 	tg := x.tgMap(op.Tg)
 	lo := LogOp{K: "op", I: i, Op: op.Op, E: e, Add: op.Add, Rem: op.Rem, Vals: map[string]int64{}, Tg: tg,
 		N: op.N, F: op.F, Flt: x.logFlt(op.Flt), Mode: op.Mode, Ret: []ecs.Entity{}, Bvals: []BVal{},
-		O: op.O, Obs: op.Obs, Ev: op.Ev, Cbs: []CbRec{}, Q: op.Q, Caps: []TabCap{}, Alive2: []ecs.Entity{}, Ret2: []ecs.Entity{}, Codec: [][3]ecs.Entity{}, BinOK: []int{},
+		O: op.O, Obs: op.Obs, Ev: op.Ev, Cbs: []CbRec{}, Q: op.Q, Caps: []TabCap{}, Alive2: []ecs.Entity{}, Ret2: []ecs.Entity{}, Alive3: []ecs.Entity{}, Ret3: []ecs.Entity{}, Codec: [][3]ecs.Entity{}, BinOK: []int{},
 		Res: Visit{V: map[string]int64{}, T: map[string]ecs.Entity{}}}
 	if lo.Obs.Obs == nil {
 		lo.Obs.Obs = []string{}
